@@ -35,6 +35,7 @@ func checkC03(r *Report, p *Program) {
 	objectMapContracts(r, p, "R03.11")
 	// exactly the claimed objects are what the hook is shown (shared with C04)
 	claimKeepTable(r, p, "R03.12")
+	namespaceDefaulted(r, p, "R03.13")
 	// which children are claimed (and so shown to the hook) is decided by makeSelector: generated ⇒ controller-uid only (shared with C04)
 	r04_4(r, p)
 }
@@ -474,5 +475,58 @@ func cachesSyncedBeforeWorkers(r *Report, p *Program, rule string) {
 			}
 		}
 		r.Check(rule, key+".Start[synced≺workers]", p.InstrPos(wait.Instr), ok, sf("workers only after all of %v have synced", need), why)
+	}
+}
+
+// namespaceDefaulted: in both callHook siblings every desired child that is kept has a namespace: either it
+// came with one, or it was given the parent's.
+func namespaceDefaulted(r *Report, p *Program, rule string) {
+	r.Rule(rule, "callHook (composite, decorator): a desired child/attachment is kept only with a namespace — its own, or the parent's set with SetNamespace(parent.GetNamespace())")
+	r.Floor(rule, 2)
+	for _, key := range []string{"controller/composite.parentController.callHook", "controller/decorator.decoratorController.callHook"} {
+		f := fn(r, p, rule, key)
+		if f == nil {
+			continue
+		}
+		var loop *engine.RangeLoop
+		for _, l := range engine.RangeLoops(f) {
+			if strings.HasSuffix(E(l.X), ".Children") || strings.HasSuffix(E(l.X), ".Attachments") {
+				loop = l
+			}
+		}
+		if loop == nil {
+			r.Check(rule, FK(f), p.Pos(f.Pos()), false, "", "no loop over the hook's children/attachments")
+			continue
+		}
+		ok, why := true, ""
+		n := 0
+		for _, b := range loop.BodyBlocks() {
+			for _, in := range b.Instrs {
+				c, isC := in.(*ssa.Call)
+				if !isC || !isCallTo(in, "builtin.append") || !engine.DependsOnValue(c.Common().Args[1], loop.Val, nil) {
+					continue
+				}
+				n++
+				w := engine.Query{Fn: f, From: []engine.Point{{B: loop.Body}}, Target: func(x ssa.Instruction) bool { return x == in },
+					CutInstr: func(x ssa.Instruction) bool {
+						ci, isCI := x.(ssa.CallInstruction)
+						if !isCI || !strings.HasSuffix(engine.CallKey(ci.Common()), "Unstructured.SetNamespace") {
+							return false
+						}
+						a := ci.Common().Args
+						return len(a) == 2 && engine.SameValue(a[0], loop.Val) && E(a[1]) == "call(unstructured.Unstructured.GetNamespace)(p1)"
+					},
+					CutEdge: func(bb *ssa.BasicBlock, i int, l *Lit) bool {
+						return l != nil && !l.Pos && l.Atom == `(call(unstructured.Unstructured.GetNamespace)(`+E(loop.Val)+`) == "")`
+					}}.Find()
+				if w != nil {
+					ok, why = false, "a desired child without a namespace is kept as it is: it is not placed in the parent's namespace (it is looked up, keyed and created under the empty namespace)"
+				}
+			}
+		}
+		if n == 0 {
+			ok, why = false, "no child is kept"
+		}
+		r.Check(rule, FK(f), p.Pos(f.Pos()), ok, "kept ⇒ has a namespace or got the parent's", why)
 	}
 }
